@@ -74,6 +74,10 @@ def qapsplit():
     """
     global eqs, blocks
 
+    # every call splits the whole equation file: start from empty tables
+    eqs = dict()
+    blocks = dict()
+
     fns = dict()
     extblocks = set()
 
